@@ -50,7 +50,7 @@ def brute_force(run, lmax, tier):
         Ysz, Yidx, Yrng = g(ix.Ysize), g(ix.Yindex), g(ix.Yrange)
         lm = lmax if variant == "jit" else min(lmax, 10)
         for ell_max in range(lm + 1):
-            for mp_max in list(range(ell_max + 3)):
+            for mp_max in list(range(ell_max + 7)) + [ell_max + 40]:
                 ref = spec_h(mp_max, ell_max)
                 pos = {t: i for i, t in enumerate(ref)}
                 n = int(Hsize(mp_max, ell_max))
